@@ -367,7 +367,7 @@ pub fn case(t: &mut Tape, ctx: &CaseCtx) -> CaseResult {
 
 pub fn run(mut run: Run) -> i32 {
     run.replay_committed(&case);
-    let n = run.n(20_000, 400_000);
+    let n = run.n(100_000, 2_000_000);
     run.random("totality", &[Tape::encode_choice(0, 3)], n, 300, &case);
     run.random("fidelity", &[Tape::encode_choice(1, 3)], n, 400, &case);
     run.random("rejection", &[Tape::encode_choice(2, 3)], n, 400, &case);
